@@ -47,14 +47,18 @@ fn rect_soundness(max: i32, symbolic_order: bool) {
     let (x4, c4, d4) = (any_in(0, max), any_in(0, max), any_in(0, max));
     kani::assume(a1 < b1 && a2 < b2 && c3 < d3 && c4 < d4);
     let br = [kani::any::<bool>(), kani::any(), kani::any(), kani::any()];
-    let frags = [
-        hline(y1, a1, b1, br[0]),
-        vline(x3, c3, d3, br[1]),
-        hline(y2, a2, b2, br[2]),
-        vline(x4, c4, d4, br[3]),
-    ];
+    // (horizontal?, row/col, from, to, dashed) of the four lines; the slice order is a
+    // symbolic permutation of this DATA, and each Fragment is then built with a concrete
+    // variant (a symbolic index into an array of Fragments would make the enum
+    // discriminant symbolic and drag every fragment kind's code into the formula)
+    let data = [(true, y1, a1, b1, br[0]), (false, x3, c3, d3, br[1]), (true, y2, a2, b2, br[2]), (false, x4, c4, d4, br[3])];
     let p = if symbolic_order { any_perm() } else { [0, 1, 2, 3] };
-    let refs = [&frags[p[0]], &frags[p[1]], &frags[p[2]], &frags[p[3]]];
+    let mk = |d: (bool, i32, i32, i32, bool)| -> Fragment {
+        let (a, b) = if d.0 { (hp(d.2, d.1), hp(d.3, d.1)) } else { (hp(d.1, d.2), hp(d.1, d.3)) };
+        Fragment::Line(Line::new(a, b, d.4))
+    };
+    let frags = [mk(data[p[0]]), mk(data[p[1]]), mk(data[p[2]]), mk(data[p[3]])];
+    let refs = [&frags[0], &frags[1], &frags[2], &frags[3]];
     let r = endorse_rect(&refs);
     kani::cover!(r.is_some(), "some arrangement is endorsed");
     kani::cover!(r.is_none() && y1 != y2 && x3 != x4, "some arrangement is rejected");
@@ -141,12 +145,7 @@ fn rect_complete(max_w: i32, max_h: i32, max_x: i32, max_y: i32, all_orders: boo
     let ty = 2 * y0 + 1; // units
     let by = 2 * (y0 + h) + 1;
     let br = [kani::any::<bool>(), kani::any(), kani::any(), kani::any()];
-    let frags = [
-        hline(ty, lx, rx, br[0]),
-        hline(by, lx, rx, br[1]),
-        vline(lx, ty, by, br[2]),
-        vline(rx, ty, by, br[3]),
-    ];
+    let data = [(true, ty, lx, rx, br[0]), (true, by, lx, rx, br[1]), (false, lx, ty, by, br[2]), (false, rx, ty, by, br[3])];
     let p = if all_orders {
         any_perm()
     } else {
@@ -155,7 +154,13 @@ fn rect_complete(max_w: i32, max_h: i32, max_x: i32, max_y: i32, all_orders: boo
         kani::assume(i < 6);
         [[0, 1, 2, 3], [0, 2, 1, 3], [2, 0, 3, 1], [3, 2, 1, 0], [1, 3, 0, 2], [2, 3, 0, 1]][i]
     };
-    let refs = [&frags[p[0]], &frags[p[1]], &frags[p[2]], &frags[p[3]]];
+    // permute the DATA, build each Fragment with a concrete variant (see rect_soundness)
+    let mk = |d: (bool, i32, i32, i32, bool)| -> Fragment {
+        let (a, b) = if d.0 { (hp(d.2, d.1), hp(d.3, d.1)) } else { (hp(d.1, d.2), hp(d.1, d.3)) };
+        Fragment::Line(Line::new(a, b, d.4))
+    };
+    let frags = [mk(data[p[0]]), mk(data[p[1]]), mk(data[p[2]]), mk(data[p[3]])];
+    let refs = [&frags[0], &frags[1], &frags[2], &frags[3]];
     let r = endorse_rect(&refs);
     kani::cover!(w == max_w && h == max_h, "the largest box in the bound");
     kani::cover!(w == 1 && h == 1, "the smallest box");
@@ -171,7 +176,7 @@ fn rect_complete(max_w: i32, max_h: i32, max_x: i32, max_y: i32, all_orders: boo
 }
 
 //@ harness: o5_2_rect_complete props=C05,C03 tier=quick obl=O5.2 timeout=2400 mem=16
-//@ desc: the 4 sides of every closed box with w in 1..12, h in 1..6 cells at every origin <= (3,3) (position independence of the predicates involved is decided separately under C06), in 6 representative slice orders (all 24 in the thorough tier), any dashedness: endorse_rect returns exactly that rect
+//@ desc: the 4 sides of every closed box with w in 1..6, h in 1..4 cells at every origin <= (2,2) (position independence of the predicates involved is decided separately under C06), in 6 representative slice orders (all 24 in the thorough tier), any dashedness: endorse_rect returns exactly that rect
 //@ encodes: endorse::endorse_rect, endorse::is_rect, endorse::parallel_aabb_group, Line::is_touching_aabb_perpendicular
 #[kani::proof]
 #[kani::stub(std::io::_print, crate::kstub::noop_print)]
@@ -179,7 +184,7 @@ fn rect_complete(max_w: i32, max_h: i32, max_x: i32, max_y: i32, all_orders: boo
 #[kani::stub(std::vec::Vec::new, crate::kstub::vec_new_cap)]
 #[kani::stub(std::vec::Vec::push, crate::kstub::push_nogrow)]
 fn o5_2_rect_complete() {
-    rect_complete(12, 6, 3, 3, false);
+    rect_complete(6, 4, 2, 2, false);
 }
 
 //@ harness: o5_2_rect_complete_60x30 props=C05,C03 tier=thorough obl=O5.2 timeout=3400 mem=24
@@ -252,6 +257,20 @@ const ORDERS8: [[usize; 8]; 6] = [
     [4, 5, 6, 7, 0, 1, 2, 3],
 ];
 
+fn frags_line(f: &Fragment) -> (Point, Point, bool) {
+    match f {
+        Fragment::Line(l) => (l.start, l.end, l.is_broken),
+        _ => (Point::new(0.0, 0.0), Point::new(0.0, 0.0), false),
+    }
+}
+
+fn frags_arc(f: &Fragment) -> (Point, Point) {
+    match f {
+        Fragment::Arc(a) => (a.start, a.end),
+        _ => (Point::new(0.0, 0.0), Point::new(0.0, 0.0)),
+    }
+}
+
 fn rounded_complete(max_w: i32, max_h: i32, max_x: i32, max_y: i32) {
     // corner characters in cells (x0,y0) .. (x0+w, y0+h); sides run through the cell centres,
     // corner arcs have radius 0.5 as `. , ' \`` draw them between a horizontal and a vertical edge
@@ -277,10 +296,22 @@ fn rounded_complete(max_w: i32, max_h: i32, max_x: i32, max_y: i32) {
         Fragment::Arc(Arc::new(pt(l, b2 - 1), pt(l + 1, b2), 0.5)),     // bottom-left (arc(h, o))
         Fragment::Arc(Arc::new(pt(r - 1, b2), pt(r, b2 - 1), 0.5)),     // bottom-right(arc(k, h))
     ];
-    let oi: usize = kani::any();
-    kani::assume(oi < 6);
-    let o = ORDERS8[oi];
-    let refs = [&frags[o[0]], &frags[o[1]], &frags[o[2]], &frags[o[3]], &frags[o[4]], &frags[o[5]], &frags[o[6]], &frags[o[7]]];
+    // the lines are permuted among the line slots and the arcs among the arc slots by
+    // selecting their DATA with a symbolic permutation; two slot layouts (lines first /
+    // interleaved) are explored by branching, so every Fragment has a concrete variant
+    let lp = any_perm();
+    let ap = any_perm();
+    let ld = [(frags_line(&frags[0])), frags_line(&frags[1]), frags_line(&frags[2]), frags_line(&frags[3])];
+    let ad = [frags_arc(&frags[4]), frags_arc(&frags[5]), frags_arc(&frags[6]), frags_arc(&frags[7])];
+    let ml = |d: (Point, Point, bool)| Fragment::Line(Line::new(d.0, d.1, d.2));
+    let ma = |d: (Point, Point)| Fragment::Arc(Arc::new(d.0, d.1, 0.5));
+    let interleaved: bool = kani::any();
+    let fr2 = if interleaved {
+        [ml(ld[lp[0]]), ma(ad[ap[0]]), ml(ld[lp[1]]), ma(ad[ap[1]]), ml(ld[lp[2]]), ma(ad[ap[2]]), ml(ld[lp[3]]), ma(ad[ap[3]])]
+    } else {
+        [ml(ld[lp[0]]), ml(ld[lp[1]]), ml(ld[lp[2]]), ml(ld[lp[3]]), ma(ad[ap[0]]), ma(ad[ap[1]]), ma(ad[ap[2]]), ma(ad[ap[3]])]
+    };
+    let refs = [&fr2[0], &fr2[1], &fr2[2], &fr2[3], &fr2[4], &fr2[5], &fr2[6], &fr2[7]];
     kani::cover!(w == max_w && h == max_h, "largest rounded box in the bound");
     assert!(endorse_rect(&refs).is_none(), "O5.3 eight fragments are not a sharp rect");
     match endorse_rounded_rect(&refs) {
@@ -295,7 +326,7 @@ fn rounded_complete(max_w: i32, max_h: i32, max_x: i32, max_y: i32) {
 }
 
 //@ harness: o5_3_rounded_complete props=C05 tier=quick obl=O5.3 timeout=2400 mem=20
-//@ desc: the 4 sides and 4 quarter arcs (radius 0.5) of every closed rounded box with w in 2..12, h in 2..6 cells at every origin <= (64,64), in 6 representative slice orders, any dashedness of the sides: endorse_rounded_rect returns exactly that rect with rx = 0.5; powf stubbed by exact square; bounded Vec
+//@ desc: the 4 sides and 4 quarter arcs (radius 0.5) of every closed rounded box with w in 2..12, h in 2..6 cells at every origin <= (3,3), with the sides in any order among the line slots and the arcs in any order among the arc slots (two slot layouts: lines first, interleaved), any dashedness of the sides: endorse_rounded_rect returns exactly that rect with rx = 0.5; powf stubbed by exact square; bounded Vec
 //@ encodes: endorse::endorse_rounded_rect, endorse::is_rounded_rect, endorse::right_angle_arcs, endorse::parallel_aabb_group, Arc::is_aabb_right_angle_arc, Rect::rounded_new
 #[kani::proof]
 #[kani::stub(std::io::_print, crate::kstub::noop_print)]
@@ -304,7 +335,7 @@ fn rounded_complete(max_w: i32, max_h: i32, max_x: i32, max_y: i32) {
 #[kani::stub(std::vec::Vec::push, crate::kstub::push_nogrow)]
 #[kani::stub(f32::powf, crate::kstub::powf_sq)]
 fn o5_3_rounded_complete() {
-    rounded_complete(12, 6, 64, 64);
+    rounded_complete(12, 6, 3, 3);
 }
 
 
